@@ -513,6 +513,22 @@ extend('C05',
        'ROUND 3 — numerals made of a digit of the unit spelling ("2 m2", "3 km^3") are asked for every such row (a unit key '
        'cut by splitting on the number text confuses the two digits).')
 
+extend('C03',
+       'ROUND 3 (extraction) — the extraction front end is inside the model: the digit-family regexes of the seven '
+       'BaseNumberParser extractor lists (NumberMode.DEFAULT and PURE_NUMBER) are regenerated from the real extractor '
+       'objects as RE terms and proved to be IntegerRegexDefinition / DoubleRegexDefinition of the model '
+       '(gen_integer_definitions, gen_double_definitions); over the regenerated regexes and the backtracking matcher it is '
+       'proved that every grouped, grouped-decimal, plain and plain-decimal literal is returned by '
+       'BaseNumberExtractor.extract (finditer + sweep + negative-term widening + ambiguity filter) as exactly ONE result '
+       'spanning the whole literal — for any number of thousands groups and digits, either sign, in any blank-delimited '
+       'carrier free of digits and marks (grouped_literal_extracted, grouped_decimal_literal_extracted for all eight '
+       'cultures, plain_literal_extracted, decimal_literal_extracted; rep_det_cons is the inductive step over the group '
+       'count); the remaining (culture, shape) cells are kernel-evaluated on bounded instances; witness theorems for the '
+       'forms the real regexes lose (de-de / nl-nl 1234,5 and -1.000, es-mx 1,000,000). Tie: per-regex finditer '
+       'correspondence (~45k) + the real extract on a family-restricted clone (~15k) + whole-literal oracle calls (~13k).',
+       'The word / suffix / CJK regexes and BaseMergedNumberExtractor stay monitored only; the full extract theorems carry '
+       'the hypothesis QuietAt (no negative term ends at the literal, no ambiguity-filter match meets it), shown satisfiable.')
+
 ALL_IDS = ['C%02d' % i for i in range(1, 21)]
 PENDING = 'check not built yet in this revision (work in progress; see DESIGN.md §8 build order)'
 
